@@ -526,12 +526,14 @@ class UnitSystemManager(Singleton):
             if there is no current unit system, the returned value and unit are the same as
             the input.
         """
-        from barril.units import Scalar
-
         ret_tuple = self.ConvertToCurrent(
             scalar.GetCategory(), scalar.GetUnit(), scalar.GetValue(), unit_database
         )
-        return Scalar(*ret_tuple)
+        value, unit = ret_tuple
+        if unit == scalar.GetUnit():
+            return scalar.CreateCopy(value=value)
+        # keep the category of the given scalar (not the default category of the target unit)
+        return scalar.CreateCopy(value=value, unit=unit)
 
 
 class _IdentityWrap:
